@@ -716,3 +716,64 @@ Qed.
 
 Theorem okb_sound : forall e, okb e = true -> ok e.
 Proof. intros e. apply (okb_ok (size e)). apply le_n. Qed.
+
+(* ------------------------------------------------------------------ witnesses *)
+(* the parser accepts `(<-a) as T` and `(-5)!` (token streams with explicit parentheses) ... *)
+Definition w_move_cast_src : list tok := [TLParen; TMove; TId 1; TRParen; TCast CAs; TType (mkTy [2] 0)].
+Definition w_move_cast : expr := ECast CAs (EUn UMove (EId 1)) (mkTy [2] 0).
+Definition w_neg_force_src : list tok := [TLParen; TBin OSub; TInt 5; TRParen; TBang].
+Definition w_neg_force : expr := EForce (EInt (-5)).
+
+Definition parse_fuel (f : nat) (ts : list tok) : option expr :=
+  match parse_expr f 0 ts with Some (e, []) => Some e | _ => None end.
+
+(* ... but their printed forms read back as different expressions, with any fuel *)
+Lemma witness_move_cast :
+  parse_fuel 20 w_move_cast_src = Some w_move_cast /\
+  forall f, parse_fuel f (pr w_move_cast) <> Some w_move_cast.
+Proof.
+  split; [reflexivity|]. intros f H.
+  assert (H20 : parse_fuel 20 (pr w_move_cast) = Some (EUn UMove (ECast CAs (EId 1) (mkTy [2] 0)))) by reflexivity.
+  unfold parse_fuel in *.
+  destruct (parse_expr f 0 (pr w_move_cast)) as [[e r]|] eqn:E; [|discriminate].
+  destruct (Nat.le_ge_cases f 20) as [Hle|Hge].
+  - apply (proj1 (fuel_mono f 20 Hle)) in E. rewrite E in H20. destruct r; [|discriminate].
+    injection H as ->. discriminate H20.
+  - destruct (parse_expr 20 0 (pr w_move_cast)) as [[e' r']|] eqn:E'; [|discriminate].
+    apply (proj1 (fuel_mono 20 f Hge)) in E'. rewrite E' in E. injection E as <- <-.
+    destruct r'; [|discriminate]. injection H as ->. discriminate H20.
+Qed.
+
+Lemma witness_neg_force :
+  parse_fuel 20 w_neg_force_src = Some w_neg_force /\
+  forall f, parse_fuel f (pr w_neg_force) <> Some w_neg_force.
+Proof.
+  split; [reflexivity|]. intros f H.
+  assert (H20 : parse_fuel 20 (pr w_neg_force) = Some (EUn UMinus (EForce (EInt 5)))) by reflexivity.
+  unfold parse_fuel in *.
+  destruct (parse_expr f 0 (pr w_neg_force)) as [[e r]|] eqn:E; [|discriminate].
+  destruct (Nat.le_ge_cases f 20) as [Hle|Hge].
+  - apply (proj1 (fuel_mono f 20 Hle)) in E. rewrite E in H20. destruct r; [|discriminate].
+    injection H as ->. discriminate H20.
+  - destruct (parse_expr 20 0 (pr w_neg_force)) as [[e' r']|] eqn:E'; [|discriminate].
+    apply (proj1 (fuel_mono 20 f Hge)) in E'. rewrite E' in E. injection E as <- <-.
+    destruct r'; [|discriminate]. injection H as ->. discriminate H20.
+Qed.
+
+(* the unrestricted statement: every expression the parser can produce survives print + parse *)
+Definition roundtrip_statement : Prop :=
+  forall src e, parse_fuel (4 * length src + 8) src = Some e ->
+  exists f, parse_fuel f (pr e) = Some e.
+
+Theorem roundtrip_statement_refuted : ~ roundtrip_statement.
+Proof.
+  intros H. destruct (H w_move_cast_src w_move_cast eq_refl) as [f Hf].
+  exact (proj2 witness_move_cast f Hf).
+Qed.
+
+Theorem roundtrip_partial : forall e, ok e ->
+  exists f0, forall f, (f0 <= f)%nat -> parse_fuel f (pr e) = Some e.
+Proof.
+  intros e H. destruct (print_parse_roundtrip e H) as [f0 Hf]. exists f0. intros f Hle.
+  unfold parse_fuel. rewrite (Hf f Hle). reflexivity.
+Qed.
